@@ -83,6 +83,19 @@ func (x *Exec) libModel(st *State, in ssa.Instruction, callee *ssa.Function, nam
 		return ret(leaf(rt, fmt.Sprintf("(timeofunix %s %s)", args[0].Term, args[1].Term)))
 	case "errors.New", "fmt.Errorf", "github.com/pkg/errors.New", "github.com/pkg/errors.Errorf", "github.com/pkg/errors.Wrap", "github.com/pkg/errors.Wrapf":
 		return ret(x.errValue(st, rt, "new"))
+	case "errors.Unwrap":
+		// some error, nil when the argument is nil; a deterministic function of the argument
+		v := x.freshValue(st, rt, "unwrap")
+		if v.K == KIface && len(args) == 1 && args[0].K == KIface {
+			x.globalDecl("unwrap_tag", "(declare-fun unwrap_tag (Int Int) Int)")
+			x.globalDecl("unwrap_val", "(declare-fun unwrap_val (Int Int) Int)")
+			st.assume(fmt.Sprintf("(= %s (unwrap_tag %s %s))", v.Fs[0].Term, args[0].Fs[0].Term, args[0].Fs[1].Term))
+			st.assume(fmt.Sprintf("(= %s (unwrap_val %s %s))", v.Fs[1].Term, args[0].Fs[0].Term, args[0].Fs[1].Term))
+			st.assume(fmt.Sprintf("(=> (= %s 0) (= %s 0))", args[0].Fs[0].Term, v.Fs[0].Term))
+		}
+		return ret(v)
+	case "errors.Is":
+		return ret(x.freshValue(st, rt, "erris"))
 	case "fmt.Sprintf":
 		return ret(x.sprintfModel(st, rt, args))
 	case "fmt.Sprint", "fmt.Sprintln":
